@@ -61,4 +61,8 @@ theorem solver_aniso_B (v0 v1 v2 u1 u2 : V3 ℝ) (c1 c2 a0 a1 : ℝ) (h : Gen.So
 /-- `aniso_smooth` is the `smoothit` argument of `curvature_tria`, once per constructor call -/
 theorem solver_aniso_smooth : Gen.SolverAniso.smoothSeen = [[7], [7], [7]] := by decide
 
+
+/-! ### census of data-dependent decisions: the traced code took exactly the branches the model knows about -/
+theorem census_SolverAniso_pcCount : Gen.SolverAniso.pcCount = 1 := rfl
+
 end LapyVerif.Bridge
